@@ -344,6 +344,59 @@ type c12Case struct {
 
 var c12Joins = []canvas.Joiner{canvas.MiterJoin, canvas.BevelJoin, canvas.RoundJoin, canvas.ArcsJoin, canvas.MiterClipJoin, canvas.MiterJoiner{GapJoiner: canvas.BevelJoin, Limit: 2}}
 
+// genC12State: several stroked spiky polygons in a row whose stroke parameters repeat and alternate,
+// so that the graphics-state caches of the PDF and PostScript writers decide what is emitted.
+func genC12State(r *core.Rng) any {
+	for {
+		c := &c12Case{W: r.Range(30, 60), H: r.Range(30, 60), DPMM: 5, Sys: r.Intn(4), PDFComp: r.Bool(), EPS: r.Bool(), Kind: "state"}
+		n := r.IntRange(3, 5)
+		widths := []float64{r.Range(0.3, 1.2), r.Range(0.3, 1.2)}
+		cols := [][]int{{r.Intn(256), r.Intn(256), r.Intn(256), 255}, {r.Intn(256), r.Intn(256), r.Intn(256), 255}}
+		for k := 0; k < n; k++ {
+			size := r.Range(8, 14)
+			var pts []Pt
+			nv := r.IntRange(3, 6)
+			a0 := r.Range(0, 2*math.Pi)
+			for v := 0; v < 2*nv; v++ { // star with sharp tips: 10-40 degree corners
+				rad := size
+				if v%2 == 1 {
+					rad = size * r.Range(0.15, 0.35)
+				}
+				ang := a0 + float64(v)*math.Pi/float64(nv)
+				pts = append(pts, Pt{X: rad * math.Cos(ang), Y: rad * math.Sin(ang)})
+			}
+			p := &canvas.Path{}
+			if r.Bool() {
+				addPoly(p, pts)
+			} else {
+				addOpenPoly(p, pts)
+			}
+			d := c12Draw{c14Draw: c14Draw{Data: dataCopy(p), X: c.W * r.Range(0.3, 0.7), Y: c.H * r.Range(0.3, 0.7), Stroke: cols[r.Intn(2)], Width: widths[r.Intn(2)], Cap: r.Intn(3), Z: 0, Shape: "poly", Size: size}}
+			d.JoinX = core.PickI(r, []int{0, 0, 1, 2, 5, 5})
+			if r.Chance(0.3) {
+				d.Fill = cols[r.Intn(2)]
+			}
+			if r.Chance(0.3) {
+				d.Dashes = []float64{core.PickF(r, []float64{2, 3}), 1}
+			}
+			if r.Chance(0.3) {
+				s := r.Range(0.7, 1.4)
+				rot := affR(r.Range(-180, 180))
+				m := aff{rot[0] * s, rot[1] * s, 0, rot[3] * s, rot[4] * s, 0}
+				d.View = m[:]
+			}
+			c.Draws = append(c.Draws, d)
+		}
+		cc := &c14Case{W: c.W, H: c.H, DPMM: c.DPMM, Sys: c.Sys}
+		for _, d := range c.Draws {
+			cc.Draws = append(cc.Draws, d.c14Draw)
+		}
+		if !c14CrossesTopLeft(cc) {
+			return c
+		}
+	}
+}
+
 func genC12(kind string) func(r *core.Rng) any {
 	return func(r *core.Rng) any {
 		for {
@@ -1411,6 +1464,7 @@ func init() {
 			{Name: "similar", Quick: 300, Thorough: 8000, Gen: genC12("similar")},
 			{Name: "dash", Quick: 300, Thorough: 8000, Gen: genC12("dash")},
 			{Name: "ps", Quick: 300, Thorough: 8000, Gen: genC12("ps")},
+			{Name: "state", Quick: 400, Thorough: 10000, Gen: genC12State},
 			{Name: "selfx-stroke", Quick: 200, Thorough: 4000, Gen: genC12("selfx-stroke"), WitnessOnly: true, Note: "strokes of closed self-crossing or nested contours: Path.Stroke loses lobes (F-C04-closed-selfx), so the rasterizer and the outline fall-backs differ from native strokes"},
 		},
 		NewCase:  func() any { return &c12Case{} },
